@@ -58,10 +58,14 @@ struct Observation {
 }
 
 fn observe(batch: &[Member]) -> Observation {
+    observe_mode(batch, VerifyAction::VerifyOnly)
+}
+
+fn observe_mode(batch: &[Member], mode: VerifyAction) -> Observation {
     let sts: Vec<RangeStatement<F>> = batch.iter().map(|m| m.st.clone()).collect();
     let proofs: Vec<_> = batch.iter().map(|m| F::from_bytes(&refbp::ref_encode(&m.rp)).expect("decodes")).collect();
     let mut ts: Vec<Transcript> = batch.iter().map(|m| m.ctx.transcript()).collect();
-    let obs = verify_observed(&sts, &proofs, &mut ts, VerifyAction::VerifyOnly);
+    let obs = verify_observed(&sts, &proofs, &mut ts, mode);
     let residual = obs
         .residuals
         .iter()
@@ -85,11 +89,12 @@ fn bump(p: &mut RefProof, pos: &SPos, by: Scalar) {
     }
 }
 
-fn weights_case(d: usize, size: usize, mixed: bool) -> Box<dyn Case> {
-    case(format!("d={}/size={}/mixed={}", d, size, mixed), move |_v| {
+fn weights_case(d: usize, size: usize, mixed: bool, mode: VerifyAction) -> Box<dyn Case> {
+    case(format!("d={}/size={}/mixed={}/{}", d, size, mixed, mode_name(mode)), move |_v| {
         fg::clear_intern();
         let mut res = CaseResult::new("explored");
         let batch: Vec<Member> = (0..size).map(|p| member(p, if mixed && p == 1 { 2 } else { 1 }, d, "w")).collect();
+        let observe = |b: &[Member]| observe_mode(b, mode);
         let base = observe(&batch);
         res.executions += 1;
         let w = match &base.weights {
@@ -165,6 +170,74 @@ fn weights_case(d: usize, size: usize, mixed: bool) -> Box<dyn Case> {
             }
         }
         res.sample = Some(json!({"d": d, "size": size, "mixed": mixed}));
+        res
+    })
+}
+
+/// Batches in which every member occurs twice (identical bytes): the pair's joint weight is read from the shared
+/// marker; it must still depend on the responses, and offsets computed from observed joint weights must not cancel
+fn duplicates_case(d: usize, layout: &'static str, mode: VerifyAction) -> Box<dyn Case> {
+    case(format!("d={}/duplicates/{}/{}", d, layout, mode_name(mode)), move |_v| {
+        fg::clear_intern();
+        let mut res = CaseResult::new("explored");
+        let p = member(0, 1, d, "dup");
+        let q = member(1, 1, d, "dup");
+        let arrange = |p: &Member, q: &Member| -> Vec<Member> {
+            match layout {
+                "PPQQ" => vec![p.clone(), p.clone(), q.clone(), q.clone()],
+                "PQPQ" => vec![p.clone(), q.clone(), p.clone(), q.clone()],
+                _ => vec![p.clone(), q.clone(), q.clone(), p.clone()],
+            }
+        };
+        let joint = |o: &Observation| -> Option<(Scalar, Scalar)> { o.residual.as_ref().map(|r| (r.coeff(p.marker), r.coeff(q.marker))) };
+        let base = observe_mode(&arrange(&p, &q), mode);
+        res.executions += 1;
+        let (wp, wq) = match joint(&base) {
+            Some(x) => x,
+            None => {
+                res.machinery_error("no compared element observed");
+                return res;
+            },
+        };
+        res.validated += 1;
+        if wp == Scalar::ZERO || wq == Scalar::ZERO {
+            res.violate("joint-weight", "the joint weight of a duplicated member is zero");
+            return res;
+        }
+        let base_ratio = wp * wq.invert();
+        for pos in mutate::scalar_positions(&p.rp) {
+            res.transitions += 1;
+            let mut p2 = p.clone();
+            bump(&mut p2.rp, &pos, Scalar::ONE);
+            let o = observe_mode(&arrange(&p2, &q), mode);
+            res.executions += 1;
+            res.validated += 1;
+            match joint(&o) {
+                Some((a, b)) if b != Scalar::ZERO => {
+                    *res.outcome_counter("ratio-comparisons") += 1;
+                    if a * b.invert() == base_ratio {
+                        res.violate(format!("ratio/{:?}", pos), format!("the ratio of the joint weights does not change when response {:?} of the duplicated member changes", pos));
+                    }
+                },
+                _ => res.violate(format!("ratio/{:?}", pos), "weight vanished"),
+            }
+        }
+        // adaptive cancellation with duplicates
+        for k in 0..d {
+            let gk = fg::basis_id(&format!("G{}", k));
+            let mut p2 = p.clone();
+            let mut q2 = q.clone();
+            p2.rp.d1[k] += wq;
+            q2.rp.d1[k] -= wp;
+            let o = observe_mode(&arrange(&p2, &q2), mode);
+            res.executions += 1;
+            res.validated += 1;
+            *res.outcome_counter(if o.accepted { "adaptive-accepted" } else { "adaptive-rejected" }) += 1;
+            let g = o.residual.as_ref().map(|r| r.coeff(gk)).unwrap_or(Scalar::ZERO);
+            if o.accepted || g == Scalar::ZERO {
+                res.violate(format!("adaptive/k={}", k), format!("offsetting defects on duplicated members cancelled on G{} (accepted = {})", k, o.accepted));
+            }
+        }
         res
     })
 }
@@ -248,7 +321,8 @@ fn adaptive_case(d: usize, size: usize, i: usize, j: usize, k: usize, variant: &
 fn batch_keep_shift(_d: &mut Scalar) {}
 
 pub fn run(rep: &mut Report) {
-    rep.rule = "batches of 2..4 marked members (bit length 2, every extension degree 1..6, one mixed-aggregation batch): weights read as \
+    rep.rule = "batches of 2..4 marked members (bit length 2, every extension degree 1..6, one mixed-aggregation batch, both verifying modes, \
+                and batches in which every member occurs twice): weights read as \
                 marker coefficients of the compared element; (1) every weight nonzero and the compared element == sum_i w_i x reference \
                 relation_i; (2) every ordered pair (i,j) x every response scalar of either member: +1 changes w_i/w_j; (3) adaptive \
                 cancellation histories of depth 3 for every pair and blinding coordinate k: offsets computed from the previously \
@@ -259,10 +333,15 @@ pub fn run(rep: &mut Report) {
     let thorough = rep.tier.thorough();
     let mut cases: Vec<Box<dyn Case>> = Vec::new();
     for d in 1..=6usize {
-        for size in 2..=(if thorough { 4 } else { 3 }) {
-            cases.push(weights_case(d, size, false));
+        for mode in [VerifyAction::VerifyOnly, VerifyAction::RecoverAndVerify] {
+            for size in 2..=(if thorough { 4 } else { 3 }) {
+                cases.push(weights_case(d, size, false, mode));
+            }
+            cases.push(weights_case(d, 3, true, mode));
+            for layout in ["PPQQ", "PQPQ", "PQQP"] {
+                cases.push(duplicates_case(d, layout, mode));
+            }
         }
-        cases.push(weights_case(d, 3, true));
         let size = 3;
         for i in 0..size {
             for j in 0..size {
